@@ -1423,7 +1423,17 @@ def _str_format_impl(ctx: CallContext) -> Value:
         _, message = errors[0]
         ctx.show_error(message, error_code=ErrorCode.incompatible_call)
         return TypedValue(str)
-    for field in parsed.iter_replacement_fields():
+    fields = list(parsed.iter_replacement_fields())
+    if any(field.arg_name is None for field in fields) and any(
+        isinstance(field.arg_name, int) for field in fields
+    ):
+        # str.format() raises ValueError for this at runtime
+        ctx.show_error(
+            "Cannot mix automatic field numbering and manual field specification",
+            error_code=ErrorCode.incompatible_call,
+        )
+        return TypedValue(str)
+    for field in fields:
         # TODO validate conversion specifiers, attributes, etc.
         if field.arg_name is None:
             if current_index >= len(args):
